@@ -30,7 +30,7 @@ CLAIMED = {
 
  "C03": dict(engine=K, category="model_checking", design="6 C03",
    technique="symbolic execution of Numba typed IR + z3 (QF_UFBV): inductive invariant with an uninterpreted ghost count function over key identities, plus bounded histories with symbolic key bytes",
-   text="Invariant 'every non-empty cell's count <= true count of the identity it stores' (identity = stored length + bytes, zero padding as representation invariant) is proved preserved by the real _add (key lengths 0..max_key_len+1, bytes symbolic) and _merge, and sufficient for _max_count(key) <= true count and 'never a key that was not added'. Bounded histories from empty sketches with symbolic key bytes (NUL bytes, aliases, over-long keys included by construction) find real counterexamples, replayed through add/merge/hh[key]/query(). Attached: heavy-hitter _add_ngram call traces (exactly the windows are added) and the CrossHair query conditions of C13 (every reported pair is a stored key with its own count, from the sketch's own current cache). This check found defect F1 (repaired in /repo commit ec85dfa).",
+   text="Invariant 'every non-empty cell's count <= true count of the identity it stores' (identity = stored length + bytes, zero padding as representation invariant) is proved preserved by the real _add (key lengths 0..max_key_len+1, bytes symbolic) and _merge, and sufficient for _max_count(key) <= true count and 'never a key that was not added'. Bounded histories from empty sketches with symbolic key bytes (NUL bytes, aliases, over-long keys included by construction) find real counterexamples, replayed through add/merge/hh[key]/query(). Attached: heavy-hitter _add_ngram call traces (exactly the windows are added) and the CrossHair query conditions of C13 (every reported pair is a stored key with its own count, from the sketch's own current cache). This check found defect F1 (repaired in /repo commit ec85dfa). _merge leaves its argument untouched (exact fact, replayed on two real sketches); the add/update wrappers pass min(value, 2^32-1) unchanged (zero stays zero).",
    note="Bounded: max_key_len <= 3 (quick) / 4 (thorough), width,depth <= 2-3, K <= 4 operations; hash stubbed as columns; query()/candidate-set glue is decided under C13."),
  "C04": dict(engine=K, category="model_checking", design="6 C04",
    technique="symbolic execution of Numba typed IR + z3 (QF_BV + LIA glue): ghost-free Boyer-Moore potential lemmas per kernel step, linear-arithmetic glue to the invariant Phi >= 2f - W, plus bounded histories with symbolic key bytes",
@@ -39,7 +39,7 @@ CLAIMED = {
 
  "C09": dict(engine=K, category="model_checking", design="6 C09",
    technique="symbolic execution of Numba typed IR + z3: QF_BV cell-wise spec for linear; for log merges QF_FPBV facts plus a real-idealised (NRA + uninterpreted pow/log with instantiated algebraic laws) nearest-counter lemma, counterexamples confirmed by a real sweep of all counters",
-   text="Linear: every cell == min(a+b, 2^32-1) for all counter pairs, argument untouched, bookkeeping summed, commutative, empty is identity, never below an input, merged estimate >= capped sum of estimates. Log16/log8: exact IEEE facts (argument untouched, bookkeeping, a+b exactly inside the reserved range) and, with floats idealised as reals and symbolic num_reserved/max_count/base, that the re-encoded counter brackets the decoded sum, is the nearer neighbour with ties down, equals the ceiling from max_count on, is never below an input, that empty is the identity and merge is commutative, with every float->int cast and integer addition shown in range.",
+   text="Linear: every cell == min(a+b, 2^32-1) for all counter pairs, argument untouched, bookkeeping summed, commutative, empty is identity, never below an input, merged estimate >= capped sum of estimates. Log16/log8: exact IEEE facts (argument untouched, bookkeeping, a+b exactly inside the reserved range) and, with floats idealised as reals and symbolic num_reserved/max_count/base, that the re-encoded counter brackets the decoded sum, is the nearer neighbour with ties down, equals the ceiling from max_count on, is never below an input, that empty is the identity and merge is commutative, with every float->int cast and integer addition shown in range. The idealised lemmas are also decided at pinned boundary counter pairs (ceiling/0 combinations), and each merge kernel runs on one large sparse table (1x8200 cells, 17 symbolic small counters around the multiples of 1024 and at both ends): every cell merged exactly once.",
    note="The nearest-counter lemma is in exact real arithmetic under the configuration invariant value(ceiling) == max_count; float rounding at exact decision boundaries is outside the claim. An idealised counterexample is reported only after a concrete witness is found on the real kernels (sweep of a row holding all counters against an independent decode-table oracle)."),
 
  "C18": dict(engine=K, category="model_checking", design="6 C18",
@@ -67,7 +67,7 @@ CLAIMED = {
    note="'Evolves identically' follows from equal state (kernels are functions of state and draws); the on-disk byte format, truncated files (C20) and real shared-memory loading are outside; the npz model is validated by replaying every counterexample through real files."),
  "C13": dict(engine=W + " + " + K, category="model_checking", design="6 C13",
    technique="CrossHair symbolic execution (z3) of the real query/generate_candidate_set/__getitem__ per enumerated alias pattern; symbolic execution of Numba typed IR + z3 for the 'mutators grow n_added or change nothing' lemma",
-   text="Per stored-key alias pattern (distinct, same key in two rows, NUL-padded alias, empty key, all-NUL key, empty cell) with both counts and the threshold over all of uint32 and k in 1..3: at most k pairs, distinct keys, non-increasing counts, each count == hh[key] >= threshold, counts are a prefix of the unbounded answer, every stored key with hh[key] >= max(threshold,1) present. Freshness: lemma A (second query after any threshold pair, explicit or default, with or without growth, equals a cache-free sketch's answer), lemma B (kernels: an add/merge either strictly increases n_added or leaves the tables alone; counts <= n_added is invariant), lemma C (load rebuilds the cache, in C10).",
+   text="Per stored-key alias pattern (distinct, same key in two rows, NUL-padded alias, empty key, all-NUL key, empty cell) with both counts and the threshold over all of uint32 and k in 1..3: at most k pairs, distinct keys, non-increasing counts, each count == hh[key] >= threshold, counts are a prefix of the unbounded answer, every stored key with hh[key] >= max(threshold,1) present. Freshness: lemma A (second query after any threshold pair, explicit or default, with or without growth, equals a cache-free sketch's answer), lemma B (kernels: an add/merge either strictly increases n_added or leaves the tables alone; counts <= n_added is invariant), lemma C (load rebuilds the cache, in C10). Also: generate_candidate_set() without an argument (what load does) followed by query(k, None), for (phi, n_added) pairs with a fractional product and symbolic counts.",
    note="Width 1 / depth 2 / max_key_len 2 only (scan loops uniform); Counter.most_common trusted; thresholds >= 2^32 and n_added wrap-around outside."),
 
  "C16": dict(engine=W, category="model_checking", design="6 C16",
@@ -89,7 +89,7 @@ CLAIMED = {
    note="Not a statistical independence result: necessary conditions only."),
  "C06": dict(engine=K + " + " + W, category="model_checking", design="6 C06",
    technique="symbolic execution of Numba typed IR + z3 (QF_BV with callee contract; QF_FPBV lemma on _log_counter; NRA real-idealised lemmas with instantiated pow laws; functional arrays for _rand); CrossHair for the class glue",
-   text="Lower bound min(true, num_reserved+1) as an inductive invariant through _add_log16/_add_log8 (all v, symbolic num_reserved, arbitrary tables, _log_counter by contract) and through merges (idealised); _log_counter's contract incl. 'increment iff draw < base**-(c-num_reserved)', one draw per probabilistic step, none in the reserved range (IEEE mode, symbolic counter/num_reserved/base); _counter2value == documented formula and one-step unbiasedness P(advance)*delta == 1 (exact real arithmetic); _rand returns batch[ptr], ptr+1 below 2048 and replaces the whole 2048-entry batch with fresh draws at 2048 (functional array, symbolic pointer); ngram kernels and add()/add_ngram() thread the pointer (no draw reused). Multiplicities up to 2^41 (a narrowed kernel parameter is a counterexample, replayed with the model's multiplicity under a time limit); _rand with slice updates as array lambdas: after a refill every slot holds a fresh draw.",
+   text="Lower bound min(true, num_reserved+1) as an inductive invariant through _add_log16/_add_log8 (all v, symbolic num_reserved, arbitrary tables, _log_counter by contract) and through merges (idealised); _log_counter's contract incl. 'increment iff draw < base**-(c-num_reserved)', one draw per probabilistic step, none in the reserved range (IEEE mode, symbolic counter/num_reserved/base); _counter2value == documented formula and one-step unbiasedness P(advance)*delta == 1 (exact real arithmetic); _rand returns batch[ptr], ptr+1 below 2048 and replaces the whole 2048-entry batch with fresh draws at 2048 (functional array, symbolic pointer); ngram kernels and add()/add_ngram() thread the pointer (no draw reused). Multiplicities up to 2^41 (a narrowed kernel parameter is a counterexample, replayed with the model's multiplicity under a time limit); _rand with slice updates as array lambdas: after a refill every slot holds a fresh draw. The pool generator of a new log sketch is seeded from OS entropy, directly or through an integer drawn from a range of at least 2^32 values and handed on unchanged.",
    note="Not decided: agreement with the exact Markov-chain distribution, quality of numpy's generator, float rounding of base**x; 'probability of draw < t is t' is the one probabilistic axiom."),
 }
 NA = {}
